@@ -30,6 +30,7 @@ Valid(s) == /\ \A k \in 1..(Len(s) - 1) : NeedAt(s, k) > 0
 
 Cands(n)      == [1..n -> Arity]
 ValidShapes(n) == {s \in Cands(n) : Valid(s)}
+ValidN == ValidShapes(N)        \* constant-level, evaluated once by TLC
 
 IsPrefixOf(p, s) == Len(p) <= Len(s) /\ \A k \in 1..Len(p) : p[k] = s[k]
 
@@ -94,7 +95,7 @@ Done == st.phase = "done"
 (* --- invariants of the design (C01) --- *)
 SuccessIffValid == Done => (st.success <=> Valid(st.s))
 PartIsPrefix    == Done => IsPrefixOf(st.part, st.s)
-PruningSound    == (Done /\ ~st.success) => \A v \in ValidShapes(N) : ~IsPrefixOf(st.part, v)
+PruningSound    == (Done /\ ~st.success) => \A v \in ValidN : ~IsPrefixOf(st.part, v)
 PreFilterSound  == (Done /\ Valid(st.s)) => PreFilter(st.s)
 ParentsConsistent ==
   Done /\ st.success =>
@@ -110,7 +111,7 @@ EmitShape == Done => PrintT(ToJson([s |-> st.s, success |-> st.success, part |->
 BasisOf(t) == CASE t = 0 -> B0 [] t = 1 -> B1 [] t = 2 -> B2
 
 LabelInit == /\ st = Idle
-             /\ shape \in ValidShapes(N)
+             /\ shape \in ValidN
              /\ labels = <<>>
              /\ nparam = 0
 
